@@ -1,10 +1,100 @@
 import StepupModel.Proto
-/-! Driver requests of C06 (`c06 <op> ...`). -/
-open StepupModel StepupModel.Proto
+import StepupModel.B.Cleanup
+/-! Driver requests of C06 (`c06 <op> ...`): the guard chain of `Builder.finalize`, the model of
+`remove_deletable_files`, and the model of `stepup clean` on an encoded database and file system.
+
+Encodings (all one token): queue `hexpath=tok,...` (`~` no hash, `.` empty); file system
+`hexpath=d` / `hexpath=f<tok>` (`.` empty); nodes `kind:hexlabel:creator:det:STATE:fhash:shash;...`
+with creator `kind.hexlabel` or `~`, `fhash`/`shash` a number or `~`; dependencies
+`kind.hexlabel>kind.hexlabel;...` (`.` empty). -/
+open StepupModel StepupModel.Proto StepupModel.K StepupModel.B
 
 namespace StepupModel.Drv.C06
 
+def parseOptNat (tok : String) : Option (Option Nat) :=
+  if tok = "~" then some none else tok.toNat?.map some
+
+def parseQueue (tok : String) : Option (List (String × Option Nat)) :=
+  if tok = "." then some [] else (tok.splitOn ",").mapM fun e =>
+    match e.splitOn "=" with
+    | [a, b] => do pure (← unhex a, ← parseOptNat b)
+    | _ => none
+
+def parseEntry (tok : String) : Option Entry :=
+  if tok = "d" then some .dir
+  else if tok.startsWith "f" then ((tok.drop 1).toString.toNat?).map Entry.file
+  else none
+
+def parseFS (tok : String) : Option FS :=
+  if tok = "." then some [] else (tok.splitOn ",").mapM fun e =>
+    match e.splitOn "=" with
+    | [a, b] => do pure (← unhex a, ← parseEntry b)
+    | _ => none
+
+def parseKind : String → Option Kind
+  | "root" => some .root | "file" => some .file | "step" => some .step | "st" => some .st
+  | _ => none
+
+def parseKeyDot (tok : String) : Option Key :=
+  match tok.splitOn "." with
+  | [k, l] => do pure ⟨← parseKind k, ← unhex l⟩
+  | _ => none
+
+def parseFileState : String → Option FileState
+  | "UNDECLARED" => some .undeclared | "UNCONFIRMED" => some .unconfirmed | "MISSING" => some .missing
+  | "CONFIRMED" => some .confirmed | "PLANNED" => some .planned | "BUILT" => some .built
+  | "OUTDATED" => some .outdated | "VOLATILE" => some .volatile | "-" => some .undeclared
+  | _ => none
+
+def parseNode (tok : String) : Option Node :=
+  match tok.splitOn ":" with
+  | [k, l, c, d, st, fh, sh] => do
+    let creator ← if c = "~" then some none else (parseKeyDot c).map some
+    pure { key := ⟨← parseKind k, ← unhex l⟩, creator := creator, detached := d = "1",
+           fstate := ← parseFileState st, fhash := ← parseOptNat fh, shash := ← parseOptNat sh }
+  | _ => none
+
+def parseNodes (tok : String) : Option (List Node) :=
+  if tok = "." then some [] else (tok.splitOn ";").mapM parseNode
+
+def parseDep (tok : String) : Option Dep :=
+  match tok.splitOn ">" with
+  | [a, b] => do pure { src := ← parseKeyDot a, snk := ← parseKeyDot b }
+  | _ => none
+
+def parseDeps (tok : String) : Option (List Dep) :=
+  if tok = "." then some [] else (tok.splitOn ";").mapM parseDep
+
+def parseState (nodes deps : String) : Option KState := do
+  pure { nodes := ← parseNodes nodes, deps := ← parseDeps deps }
+
+def encEntry : Entry → String
+  | .dir => "d"
+  | .file c => "f" ++ toString c
+
+def encFS (fs : FS) : String :=
+  let items := (fs.map fun e => hex e.1 ++ "=" ++ encEntry e.2).mergeSort fun a b => decide (a ≤ b)
+  if items.isEmpty then "." else ",".intercalate items
+
+def optNatStr : Option Nat → String
+  | some n => toString n
+  | none => "~"
+
 def handle : List String → Option String
+  | ["guard", nt, nd, rc, clean] => do
+    pure (boolStr (cleanupRuns (← nt.toNat?) (← nd.toNat?) (← rc.toNat?) (clean = "1")))
+  | ["rm", queue, fs] => do
+    let r := removeDeletable (← parseQueue queue) (← parseFS fs)
+    pure (hexList r.2 ++ " " ++ encFS r.1)
+  | ["select", nodes, deps, paths, all] => do
+    let s ← parseState nodes deps
+    let rows := cleanSelect s (← unhexList paths) (all ≠ "1")
+    let items := rows.map fun r => s!"{hex r.label}:{r.state.name}:{boolStr r.detached}:{optNatStr r.hash}"
+    pure (if items.isEmpty then "." else ",".intercalate items)
+  | ["clean", nodes, deps, fs, paths, all, unsafe_, commit] => do
+    let s ← parseState nodes deps
+    let r := cleanRun s (← unhexList paths) (all = "1") (unsafe_ = "1") (commit = "1") (← parseFS fs)
+    pure (hexList r.2.1 ++ " " ++ encFS r.1 ++ " " ++ boolStr r.2.2)
   | _ => none
 
 end StepupModel.Drv.C06
